@@ -278,3 +278,26 @@ func isFieldLoadOn(f *types.Var, base ssa.Value) VPat {
 		return lf == f && (base == nil || b == base)
 	}
 }
+
+// chanName renders the channel operand of a blocking operation.
+func chanName(v ssa.Value) string {
+	if f, _ := loadedField(v); f != nil {
+		return f.Name()
+	}
+	switch x := v.(type) {
+	case *ssa.Call:
+		if x.Call.IsInvoke() {
+			return "." + x.Call.Method.Name() + "()"
+		}
+		if sc := x.Call.StaticCallee(); sc != nil {
+			return sc.Name() + "()"
+		}
+	case *ssa.Parameter:
+		return "param:" + x.Name()
+	case *ssa.FreeVar:
+		return "free:" + x.Name()
+	case *ssa.Phi:
+		return "φ"
+	}
+	return v.Name()
+}
